@@ -45,17 +45,19 @@ theorem single_fault_local_impl (o : Oracle) (f : Path) (x : ROut) (fi : FInfo) 
 /-- **A failing resolver completes to null with exactly one error at its own path** (no schema
 directive in front of it), and is propagated (`none`) exactly when the position is non-null. -/
 theorem error_completes_to_null (o : Oracle) (fi : FInfo) (sh : Shape) (p : Path) (m : String)
-    (hd : fi.dirs = []) (h : o.res p = .err m) :
+    (hd : fi.dirs = []) (hp : fi.plain = false) (h : o.res p = .err m) :
     Spec.completeField o fi sh p =
       (Spec.failed sh.nn, eff [⟨p, m⟩] [(pathStr p, "resolver")]) := by
-  simp only [Spec.completeField, hd, List.reverse_nil, Impl.runDirs, h, St.empty_append]
+  simp only [Spec.completeField, hd, List.reverse_nil, Impl.runDirs, Oracle.outcome, hp, h, St.empty_append,
+    Bool.false_eq_true, ↓reduceIte]
 
 /-- **A panicking resolver** behaves like a failing one and the recover hook runs exactly once. -/
 theorem panic_completes_to_null_recover_once (o : Oracle) (fi : FInfo) (sh : Shape) (p : Path)
-    (m : String) (hd : fi.dirs = []) (h : o.res p = .panic m) :
+    (m : String) (hd : fi.dirs = []) (hp : fi.plain = false) (h : o.res p = .panic m) :
     Spec.completeField o fi sh p =
       (Spec.failed sh.nn, eff [⟨p, "recovered: " ++ m⟩] [(pathStr p, "resolver")] 1) := by
-  simp only [Spec.completeField, hd, List.reverse_nil, Impl.runDirs, h, St.empty_append]
+  simp only [Spec.completeField, hd, List.reverse_nil, Impl.runDirs, Oracle.outcome, hp, h, St.empty_append,
+    Bool.false_eq_true, ↓reduceIte]
 
 /-- **A failing or panicking schema directive** (outermost of the field's chain): the resolver is not
 invoked, the position is null with one error at its path. -/
@@ -70,13 +72,13 @@ theorem directive_error_blocks_resolver (o : Oracle) (fi : FInfo) (sh : Shape) (
 
 /-- every recover is accompanied by an error: the recover count never exceeds the error count -/
 theorem recovers_le_errors_field (o : Oracle) (fi : FInfo) (sh : Shape) (p : Path)
-    (hd : fi.dirs = []) (m : String) (h : o.res p = .panic m) :
+    (hd : fi.dirs = []) (hp : fi.plain = false) (m : String) (h : o.res p = .panic m) :
     (Spec.completeField o fi sh p).2.recovers ≤ (Spec.completeField o fi sh p).2.errs.length := by
-  rw [panic_completes_to_null_recover_once o fi sh p m hd h]; simp
+  rw [panic_completes_to_null_recover_once o fi sh p m hd hp h]; simp
 
 /-! non-vacuity -/
 example : ¬ ([Seg.key "a"] <+: [Seg.key "b", Seg.key "x"]) := by decide
-example : ((⟨fun _ => .val .null, fun _ _ => .pass⟩ : Oracle).withRes [.key "b"] (.panic "boom")).res [.key "b"]
+example : (({ res := fun _ => .val .null, dir := fun _ _ => .pass } : Oracle).withRes [.key "b"] (.panic "boom")).res [.key "b"]
     = .panic "boom" := by simp [Oracle.withRes]
 
 end GqlgenVerif.C04
